@@ -12,7 +12,7 @@ use kinded::{Kind, Kinded};
 use proc_macro2::{Ident, Span};
 use syn::{
     parenthesized,
-    parse::{Parse, ParseStream},
+    parse::{discouraged::Speculative, Parse, ParseStream},
     spanned::Spanned,
     token::Paren,
     Expr, Lit, Token,
@@ -357,7 +357,11 @@ pub fn parse_number_or_expr<T>(input: ParseStream) -> syn::Result<(ValueOrExpr<T
 where
     T: FromStr,
 {
-    if let Ok((number, span)) = parse_number::<T>(input) {
+    // Try on a fork, so that a failed attempt does not consume tokens
+    // (e.g. the leading `-` of `-MY_CONST`).
+    let fork = input.fork();
+    if let Ok((number, span)) = parse_number::<T>(&fork) {
+        input.advance_to(&fork);
         Ok((ValueOrExpr::Value(number), span))
     } else {
         let expr: Expr = input.parse()?;
